@@ -47,6 +47,16 @@ def run(chk):
     texts += ["vars { number = balance(@a, USD) }", "vars { $x }", "vars { monetary $x = }", "send [USD 1/0] (source = @a destination = @b)",
               "send [USD *] (source = allowing unbounded overdraft destination = @b)", "set_tx_meta(", "(", "send [ ] (source = { 1/0 from } destination = )",
               "vars { account $a = meta( }", "send [USD 10] (source = max from @a destination = @b)", "save from"]
+    # calls with a broken token at every argument position (too few, exact, too many arguments)
+    for tk in gen_check.TOKENS:
+        for nargs in (1, 2, 3, 4, 5):
+            for pos in range(nargs):
+                args = ['"k"', "1", "@a", "USD", "2"][:nargs]
+                args[pos] = tk
+                texts.append("set_tx_meta(%s)" % ", ".join(args))
+                if pos == nargs - 1 or tk in ("*", "max", "]", "="):
+                    texts.append("vars { monetary $m = balance(%s) }\nsend $m (source = @a destination = @b)" % ", ".join(args))
+                    texts.append("set_account_meta(%s)" % ", ".join(args))
     texts = list(dict.fromkeys(texts))
     cases = [{"script": t, "positions": gen_check.all_positions(t, cap=(120 if chk.tier == "quick" else 400))} for t in texts]
     gos, models = A.analyze_both(cases)
